@@ -40,7 +40,7 @@ func TestMain(m *testing.M) {
 type Msg struct {
 	Kind string `json:"kind"`
 	Mut  string `json:"mut"`
-	From string `json:"from"` // M | S
+	From string `json:"from"` // M | S | U (an address nobody listens on: the client's answers cannot be delivered)
 	Ser  string `json:"ser"`  // native | protobuf
 	I    int    `json:"i"`
 	V    uint64 `json:"v"`
@@ -66,14 +66,14 @@ type Case struct {
 
 var catalog = map[string][]string{
 	"sync":       {"nil-tx", "phase-200", "newer-fake", "unknown-channel", "current", "older"},
-	"update":     {"valid", "cols+1", "cols-1", "asset+1", "locked-bigmap", "locked-dims", "actor-max", "version-max", "sig-garbage", "unknown-channel", "final", "mock-app", "sum+1"},
+	"update":     {"valid", "cols+1", "cols-1", "asset+1", "locked-bigmap", "locked-dims", "actor-max", "actor-eq-parts", "actor-honest", "version-max", "sig-garbage", "unknown-channel", "final", "mock-app", "sum+1"},
 	"updateacc":  {"current", "next", "zero", "unknown-channel", "sig-garbage"},
 	"updaterej":  {"current", "next", "unknown-channel"},
 	"propacc":    {"ledger", "sub", "virtual", "rej"},
 	"ledgerprop": {"valid", "empty-balances", "one-participant", "peers-3", "huge-assets", "no-participant", "locked"},
 	"subprop":    {"valid", "unknown-parent", "cols-3", "empty-balances", "other-channel", "assets-2"},
-	"virtprop":   {"valid", "parents-0", "parents-1", "indexmaps-0", "indexmap-big", "indexmap-short", "cols-3", "empty-balances", "funding-ragged"},
-	"vcfund":     {"valid", "state-3-cols", "state-1-col", "sigs-3", "sigs-1", "indexmap-big", "indexmap-3", "indexmap-empty", "not-virtual", "locked", "id-mismatch", "bad-sig", "params-3-parts", "assets-2", "no-suballoc", "parent-invalid"},
+	"virtprop":   {"valid", "parents-0", "parents-1", "parents-3", "indexmaps-0", "indexmaps-1", "indexmap-big", "indexmap-short", "indexmap-eq-peers", "indexmap-eq-peers-first", "cols-3", "empty-balances", "funding-ragged"},
+	"vcfund":     {"valid", "state-3-cols", "state-1-col", "sigs-3", "sigs-1", "indexmap-big", "indexmap-eq-parts", "indexmap-eq-parts-first", "indexmap-3", "indexmap-empty", "not-virtual", "locked", "id-mismatch", "bad-sig", "params-3-parts", "assets-2", "no-suballoc", "parent-invalid"},
 	"vcsettle":   {"unallocated", "state-3-cols", "sigs-3", "id-mismatch", "bad-sig", "params-3-parts"},
 }
 
@@ -88,7 +88,7 @@ func drawScenario(t *rapid.T) Scenario {
 	for i := 0; i < n; i++ {
 		k := rapid.SampledFrom(kinds).Draw(t, "kind")
 		m := Msg{Kind: k, Mut: rapid.SampledFrom(catalog[k]).Draw(t, "mut"),
-			From: rapid.SampledFrom([]string{"M", "M", "M", "S"}).Draw(t, "from"),
+			From: rapid.SampledFrom([]string{"M", "M", "M", "M", "S", "U"}).Draw(t, "from"),
 			Ser:  rapid.SampledFrom([]string{"native", "protobuf"}).Draw(t, "ser"),
 			I:    rapid.IntRange(0, 3).Draw(t, "i"), V: uint64(rapid.IntRange(1, 3).Draw(t, "v"))}
 		s.Msgs = append(s.Msgs, m)
@@ -212,7 +212,7 @@ func (x *ctxS) build(m Msg) (wire.Msg, bool) {
 		return msg, true
 	case "update":
 		sign := m.Mut != "sig-garbage"
-		return x.signedUpdate(func(s *channel.State) {
+		um := x.signedUpdate(func(s *channel.State) {
 			switch m.Mut {
 			case "cols+1":
 				s.Balances[0] = append(s.Balances[0], bal(0))
@@ -246,7 +246,16 @@ func (x *ctxS) build(m Msg) (wire.Msg, bool) {
 			case "sum+1":
 				s.Balances[0][mIdx] = new(big.Int).Add(s.Balances[0][mIdx], bal(m.V))
 			}
-		}, sign), true
+		}, sign)
+		switch m.Mut {
+		case "actor-max":
+			um.ActorIdx = 65535
+		case "actor-eq-parts": // exactly one past the last participant
+			um.ActorIdx = 2
+		case "actor-honest":
+			um.ActorIdx = channel.Index(hIdx)
+		}
+		return um, true
 	case "updateacc":
 		cur := x.hCur()
 		msg := &client.ChannelUpdateAccMsg{ChannelID: mhID, Version: cur.Version, Sig: x.M.SignState(cur)}
@@ -358,6 +367,14 @@ func (x *ctxS) build(m Msg) (wire.Msg, bool) {
 			p.IndexMaps[1] = []channel.Index{7, 65535}
 		case "indexmap-short":
 			p.IndexMaps[1] = []channel.Index{1}
+		case "indexmap-eq-peers": // exactly one past the last participant of the parent
+			p.IndexMaps[1] = []channel.Index{1, 2}
+		case "indexmap-eq-peers-first":
+			p.IndexMaps[1] = []channel.Index{2, 0}
+		case "parents-3":
+			p.Parents = append(p.Parents, unknown)
+		case "indexmaps-1":
+			p.IndexMaps = p.IndexMaps[:1]
 		case "cols-3":
 			p.InitBals.Balances[0] = append(p.InitBals.Balances[0], bal(0))
 			p.FundingAgreement = p.InitBals.Balances.Clone()
@@ -389,6 +406,10 @@ func (x *ctxS) build(m Msg) (wire.Msg, bool) {
 			ini.Sigs = ini.Sigs[:1]
 		case "indexmap-big":
 			imap = []channel.Index{channel.Index(mIdx), 7}
+		case "indexmap-eq-parts": // exactly one past the last participant
+			imap = []channel.Index{channel.Index(mIdx), 2}
+		case "indexmap-eq-parts-first":
+			imap = []channel.Index{2, channel.Index(hIdx)}
 		case "indexmap-3":
 			imap = []channel.Index{channel.Index(mIdx), channel.Index(hIdx), channel.Index(mIdx)}
 		case "indexmap-empty":
@@ -413,10 +434,23 @@ func (x *ctxS) build(m Msg) (wire.Msg, bool) {
 				s.Balances[0][mIdx] = new(big.Int).Add(s.Balances[0][mIdx], bal(1))
 				return
 			}
-			// take the virtual channel's total from the adversary's own balance when possible
+			// every participant of the virtual channel is debited at the parent
+			// participant its index-map entry names (an acceptable funding update);
+			// entries out of range are taken from the adversary's own balance
 			need := new(big.Int).Set(sum[0])
-			if s.Balances[0][mIdx].Cmp(need) >= 0 {
-				s.Balances[0][mIdx] = new(big.Int).Sub(s.Balances[0][mIdx], need)
+			after := []*big.Int{new(big.Int).Set(s.Balances[0][0]), new(big.Int).Set(s.Balances[0][1])}
+			okFunds := len(ini.State.Balances) > 0
+			if okFunds {
+				for j, vb := range ini.State.Balances[0] {
+					p := mIdx
+					if j < len(imap) && int(imap[j]) < 2 {
+						p = int(imap[j])
+					}
+					after[p].Sub(after[p], vb)
+				}
+			}
+			if okFunds && after[0].Sign() >= 0 && after[1].Sign() >= 0 {
+				s.Balances[0][0], s.Balances[0][1] = after[0], after[1]
 			} else {
 				need = new(big.Int)
 			}
@@ -456,6 +490,7 @@ func runScenario(sc Scenario, idx int, o *h.Outcome, omu *sync.Mutex) *h.Failure
 	class := func(c string) { omu.Lock(); o.Class(c); omu.Unlock() }
 	env := sim.NewEnv(nil)
 	defer env.Close()
+	env.Bus.BlockOnUnknownRecipient()
 	x := &ctxS{env: env}
 	var err error
 	mk := func(name string, key int) *sim.Party {
@@ -603,7 +638,17 @@ func runScenario(sc Scenario, idx int, o *h.Outcome, omu *sync.Mutex) *h.Failure
 			// answer each other's sync replies for ever, which only burns CPU
 			sender = x.S
 		}
-		env1 := &wire.Envelope{Sender: sender.WireAddr, Recipient: x.H.WireAddr, Msg: msg}
+		senderAddr := sender.WireAddr
+		if m.From == "U" {
+			// nobody listens on this address: whatever H answers waits for its own
+			// context (the bus keeps "dialling", as a network bus does)
+			senderAddr = sim.WireAddrOf(fmt.Sprintf("unreachable-%d", idx))
+			class("from-unreachable:" + m.Kind)
+			if m.Kind == "sync" {
+				slow++ // the reply is tried for the client's 10 s reply window while the channel is kept
+			}
+		}
+		env1 := &wire.Envelope{Sender: senderAddr, Recipient: x.H.WireAddr, Msg: msg}
 		// only decodable messages reach a client
 		var dec *wire.Envelope
 		g := h.Guard(func() *h.Failure {
